@@ -56,6 +56,29 @@ def _word_ranges():
     return _WORD
 
 
+def _decide_known(ch, c, e):
+    """a character whose possible values are known syntactically (output of an encoding table, digit of a rendered number):
+    the class test is evaluated on those values; decided without the solver when they all agree"""
+    if isinstance(ch, str) or not z3.is_expr(ch):
+        return None
+    from .sbytes import known_codes
+    k = known_codes(ch)
+    if k is None or len(k) > 300:
+        return None
+    seen = set()
+    for v in k:
+        r = z3.simplify(z3.substitute(e, (c, z3.BitVecVal(v, c.size()))))
+        if z3.is_true(r):
+            seen.add(True)
+        elif z3.is_false(r):
+            seen.add(False)
+        else:
+            return None
+        if len(seen) > 1:
+            return None
+    return seen.pop() if seen else None
+
+
 def _in(c, items, ic):
     neg = False
     alts = []
@@ -171,6 +194,9 @@ class SRegex:
                     e = _in(c, av, self.ic)
                 else:
                     e = z3.BoolVal(True) if self.dotall else c != 10
+                dec = _decide_known(chars[pos], c, e)
+                if dec is not None:
+                    return nxt(pos + 1, groups) if dec else None
                 return nxt(pos + 1, groups) if bool(SBool(e)) else None
             if op is sre_c.SUBPATTERN:
                 gid, add, dele, sub = av
